@@ -237,7 +237,7 @@ def like_index(ctx, prog, scope=None, floor=30):
             if s[0] != "field":
                 continue
             n += 1
-            ctx.visit(f)
+            ctx.visit(f, weak=True)
             ctx.ob(RF, "%s: %s <- source field of the same name" % (f.short, w.field), of[2] == w.field,
                    "%s.%s = %s" % (w.root, w.field, show(w.src)), f.loc(w.sp))
     ctx.floor(RF, n, floor, "field-to-field copies between hash objects%s" % ("" if scope is None else " in scope"))
@@ -262,7 +262,7 @@ def dest_complete(ctx, prog, scope=None, floor=6):
             # in-place transformers that only touch a strict subset deliberately (dual normalize_in_place clears RLE only;
             # compare target partial initialiser) are handled by their own rules when they are not exported `into`/`init` forms
             n += 1
-            ctx.visit(f)
+            ctx.visit(f, weak=True)
             need = FIELDS_OF[root[1]]
             # normal returns: return blocks not dominated by an Err construction
             errs = set()
